@@ -97,7 +97,11 @@ theorem deleteHostInfo_indexes {m : HostMap} {hi : HostInfo} {k : Nat} {h : Host
     (hk : alookup k (m.deleteHostInfo hi).indexes = some h) : alookup k m.indexes = some h := by
   unfold HostMap.deleteHostInfo at hk
   simp only [foldl_erase_indexes] at hk
-  exact alookup_aerase_some hk
+  split at hk
+  · split at hk
+    · exact alookup_aerase_some hk
+    · exact hk
+  · exact hk
 
 theorem mem_innerAdd {m : HostMap} {a : Addr} {hi : HostInfo} {b : Addr} {h : HostInfo}
     (hm : h ∈ (m.innerAdd a hi).getList b) : h ∈ m.getList b ∨ (h = hi ∧ b = a) := by
